@@ -31,15 +31,13 @@ Definition data_ok (g : config) : bool :=
   guarded (i_open_r_guard g) EXN_FileNotFoundError &&
   guarded (i_type_guard g) (i_type_exn g) && guarded (i_type_guard g) EXN_AttributeError &&
   guarded (i_lock_guard g) EXN_filelock_Timeout && guarded (i_stale_rm_guard g) EXN_FileNotFoundError &&
-  inner_catches_all (m_read_guard g) &&
+  inner_catches_all (m_read_guard g) && Nat.leb 2 (length (m_read_guard g)) && Nat.leb 2 (length (m_type_guard g)) &&
   match catch_level (m_read_guard g) EXN_EOFError with Some O => true | _ => false end &&
-  match catch_level (m_type_guard g) (m_type_exn g) with Some O => true | _ => false end &&
+  guarded (m_type_guard g) (m_type_exn g) &&
   guarded (m_outer_guard g) EXN_AttributeError && guarded (m_lock_guard g) EXN_filelock_Timeout.
 
-Lemma gen_quick_ok : quick_ok gen_config = true.
-Proof. vm_compute. reflexivity. Qed.
-Lemma gen_data_ok : data_ok gen_config = true.
-Proof. vm_compute. reflexivity. Qed.
+(* [quick_ok gen_config = true] and [data_ok gen_config = true] are established by computation in each Props/C18 file, so
+   that this file builds whatever the source says and a broken premise is reported per theorem. *)
 
 Lemma forallb_In : forall (A : Type) (f : A -> bool) l x, forallb f l = true -> In x l -> f x = true.
 Proof. intros A f l x H Hin. rewrite forallb_forall in H. auto. Qed.
@@ -144,8 +142,9 @@ Lemma data_ok_facts : forall g, data_ok g = true ->
   guarded (i_type_guard g) (i_type_exn g) = true /\ guarded (i_type_guard g) EXN_AttributeError = true /\
   guarded (i_lock_guard g) EXN_filelock_Timeout = true /\ guarded (i_stale_rm_guard g) EXN_FileNotFoundError = true /\
   inner_catches_all (m_read_guard g) = true /\
+  Nat.leb 2 (length (m_read_guard g)) = true /\ Nat.leb 2 (length (m_type_guard g)) = true /\
   catch_level (m_read_guard g) EXN_EOFError = Some O /\
-  catch_level (m_type_guard g) (m_type_exn g) = Some O /\
+  guarded (m_type_guard g) (m_type_exn g) = true /\
   guarded (m_outer_guard g) EXN_AttributeError = true /\ guarded (m_lock_guard g) EXN_filelock_Timeout = true.
 Proof.
   intros g H. unfold data_ok in H. repeat (apply andb_prop in H; destruct H as [H ?]).
@@ -158,7 +157,7 @@ Qed.
 Ltac qfacts H := apply quick_ok_facts in H;
   destruct H as (Hrl & Hwl & Hhc & Hrc & Hrg & Heof & Hfnf & Hty & Hattr & Htor & Htow).
 Ltac dfacts H := apply data_ok_facts in H;
-  destruct H as (Hrl & Hml & Hhc & Hrg & Heof & Hfnf & Hty & Hattr & Hto & Hsrm & Hmin & Hmeof & Hmty & Hmattr & Hmto).
+  destruct H as (Hrl & Hml & Hhc & Hrg & Heof & Hfnf & Hty & Hattr & Hto & Hsrm & Hmin & Hlen & Hlent & Hmeof & Hmty & Hmattr & Hmto).
 
 Lemma quick_eval_admissible : forall g cur o, quick_ok g = true -> quick_admissible cur o ->
   quick_eval g cur o = LMiss \/ (quick_eval g cur o = LHit DB_FULL /\ o = CQuick cur DB_FULL).
@@ -717,10 +716,14 @@ Proof.
       - left. eexists. split; [reflexivity|split; assumption].
       - left. exists m. split; [|split; assumption]. unfold make_inner.
         unfold inner_catches_all in Hmin. apply (proj1 (forallb_forall _ _)) with (x := e0) in Hmin; [|exact Hfile].
-        destruct (catch_level (m_read_guard g) e0) as [[|?]|]; try discriminate. reflexivity.
-      - left. exists m. split; [|split; assumption]. unfold make_inner. rewrite Hmty. reflexivity.
+        destruct (catch_level (m_read_guard g) e0) as [[|?]|]; try discriminate. rewrite Hlen. reflexivity.
+      - unfold make_inner. unfold guarded in Hmty.
+        destruct (catch_level (m_type_guard g) (m_type_exn g)) as [[|?]|]; [left|right; reflexivity|discriminate].
+        exists m. split; [rewrite Hlent; reflexivity|split; assumption].
       - right. unfold make_outer. rewrite Hmattr. reflexivity.
-      - left. exists m. split; [|split; assumption]. unfold make_inner. rewrite Hmty. reflexivity.
+      - unfold make_inner. unfold guarded in Hmty.
+        destruct (catch_level (m_type_guard g) (m_type_exn g)) as [[|?]|]; [left|right; reflexivity|discriminate].
+        exists m. split; [rewrite Hlent; reflexivity|split; assumption].
       - simpl in Hns. destruct (Z.eqb_spec h0 (w_cur w)) as [Eh|Eh]; [|discriminate]. subst h0.
         simpl in Hfile. specialize (Hfile eq_refl).
         rewrite ?Z.eqb_refl. simpl. destruct (keys_eqb (keys m0) (keys m)).
@@ -1060,4 +1063,164 @@ Proof.
               end; try (simpl; lia).
   all: try (pose proof (ready_measure w i []); simpl in *; lia).
   all: try (pose proof (ready_measure w i m); simpl in *; lia).
+Qed.
+(* ---- the reference of the property: SPSDK_CACHE_DISABLED *)
+Lemma cache_transparent_gen : forall g cur c, quick_ok g = true -> disabled_complete g = true ->
+  quick_admissible cur c -> fst (quick_start g cur c) = disabled_start g.
+Proof.
+  intros g cur c Hok Hd Ha. rewrite (quick_start_total g cur c Hok Ha). unfold disabled_start. rewrite Hd. reflexivity.
+Qed.
+
+Lemma disabled_refuted_gen : forall g cur, quick_ok g = true -> disabled_complete g = false ->
+  exists c, quick_admissible cur c /\ fst (quick_start g cur c) <> disabled_start g.
+Proof.
+  intros g cur Hok Hd. exists CMissing. split; [exact I|].
+  rewrite (quick_start_total g cur CMissing Hok I). unfold disabled_start. rewrite Hd. simpl. discriminate.
+Qed.
+
+Lemma eof_is_exception : In EXN_EOFError exception_classes.
+Proof. vm_compute. tauto. Qed.
+
+(* ---- the recorded race: two processes, damaged data cache, both reach the except handler *)
+Definition w0 : world := h_world 1 0.
+Definition race_sched : list (nat * action) :=
+  [(0, AExists); (1, AExists); (0, AAcquire); (0, AReadAll CMissing); (0, ARelease);
+   (1, AAcquire); (1, AReadAll CMissing); (1, ARelease);
+   (0, AExists); (1, AExists); (0, ARemove); (1, ARemove)]%nat.
+Definition race_result (g : config) : pc :=
+  procs (run g w0 (init_sys (CDamaged EXN_EOFError) DStart) race_sched) 1%nat.
+
+Lemma race_witness : forall g,
+  procs (run g w0 (init_sys (CDamaged EXN_EOFError) DStart) race_sched) 1%nat = Fail S_HANDLER_RM EXN_FileNotFoundError ->
+  exists c sched, data_admissible (w_cur w0) (w_src w0) c /\ not_open c /\ sched_ok sched /\
+                  exists i, procs (run g w0 (init_sys c DStart) sched) i = Fail S_HANDLER_RM EXN_FileNotFoundError.
+Proof.
+  intros g H. exists (CDamaged EXN_EOFError), race_sched. split; [exact eof_is_exception|].
+  split; [intros k; discriminate|]. split.
+  - intros ia Hin. simpl in Hin. repeat (destruct Hin as [<-|Hin]; [exact I|]). destruct Hin.
+  - exists 1%nat. exact H.
+Qed.
+
+(* ---- the lock is what makes it work: the same routine with the read outside the lock *)
+Definition unlock_quick_read (g : config) : config := {|
+  q_read_locked := false; q_lock_r_guard := q_lock_r_guard g; q_open_r_guard := q_open_r_guard g;
+  q_read_guard := q_read_guard g; q_type_guard := q_type_guard g; q_type_exn := q_type_exn g; q_hash_checked := q_hash_checked g;
+  q_write_locked := q_write_locked g; q_lock_w_guard := q_lock_w_guard g;
+  i_read_locked := i_read_locked g; i_lock_guard := i_lock_guard g; i_open_r_guard := i_open_r_guard g;
+  i_read_guard := i_read_guard g; i_type_guard := i_type_guard g; i_type_exn := i_type_exn g; i_hash_checked := i_hash_checked g;
+  i_stale_rm_guard := i_stale_rm_guard g; i_hrm_guard := i_hrm_guard g;
+  m_locked := m_locked g; m_lock_guard := m_lock_guard g; m_read_guard := m_read_guard g;
+  m_type_guard := m_type_guard g; m_type_exn := m_type_exn g; m_outer_guard := m_outer_guard g;
+  disabled_complete := disabled_complete g; rebuild_complete := rebuild_complete g |}.
+
+Definition torn_sched : list (nat * action) :=
+  [(0, AExists); (0, AAcquire); (0, AReadAll CMissing); (0, ARelease); (0, AAcquire); (0, ATruncOpen);
+   (1, AExists); (1, AAcquire); (1, AReadAll (CQuick 1 2)); (1, ARelease)]%nat.
+Lemma torn_witness : forall g,
+  procs (run (unlock_quick_read g) w0 (init_sys (CQuick 0 0) QStart) torn_sched) 1%nat = Done 2 ->
+  exists c sched, quick_admissible (w_cur w0) c /\ not_open c /\ sched_ok sched /\
+                  exists i a, procs (run (unlock_quick_read g) w0 (init_sys c QStart) sched) i = Done a /\ a <> DB_FULL.
+Proof.
+  intros g H. exists (CQuick 0 0), torn_sched. split; [simpl; intros E; discriminate|].
+  split; [intros k; discriminate|]. split.
+  - intros ia Hin. simpl in Hin. repeat (destruct Hin as [<-|Hin]; [exact I|]). destruct Hin.
+  - exists 1%nat, 2. split; [exact H|discriminate].
+Qed.
+
+(* ---- non-vacuity of the hypotheses *)
+Example sched_ok_example : sched_ok [(0%nat, AExists); (1%nat, ACrash EXN_EOFError); (0%nat, AAcquire)].
+Proof. intros ia [<-|[<-|[<-|[]]]]; simpl; try exact I. exact eof_is_exception. Qed.
+Example data_admissible_example : data_admissible 1 (fun k => 100 + k) (CData 1 [(0, 100); (3, 103)]).
+Proof. intros _ k v [H|[H|[]]]; inversion H; subst; reflexivity. Qed.
+Example data_admissible_poisoned_stale : data_admissible 1 (fun k => 100 + k) (CData 0 [(0, 666)]).
+Proof. intros H. discriminate. Qed.
+(* ---- reachable states of the two systems *)
+Definition reachable (g : config) (w : world) (s : sys) : Prop :=
+  (exists c sched, quick_admissible (w_cur w) c /\ not_open c /\ sched_ok sched /\ s = run g w (init_sys c QStart) sched) \/
+  (exists c sched, data_admissible (w_cur w) (w_src w) c /\ not_open c /\ sched_ok sched /\ s = run g w (init_sys c DStart) sched).
+
+Lemma reachable_linv : forall g w s, quick_ok g = true -> data_ok g = true -> reachable g w s -> linv s.
+Proof.
+  intros g w s Hq Hd [(c & sched & Ha & Hc & Hs & E)|(c & sched & Ha & Hc & Hs & E)]; subst s.
+  - pose proof (qinv_run g w c sched Hq Ha Hc Hs) as [H _]. exact H.
+  - pose proof (dinv_run g w c sched Hd Ha Hc Hs) as [H _]. exact H.
+Qed.
+
+Lemma crash_prefix_reach : forall g w s i e s', quick_ok g = true -> data_ok g = true -> reachable g w s ->
+  step g w s i (ACrash e) = Some s' ->
+  procs s' i = Killed /\ (forall j, j <> i -> procs s' j = procs s j) /\
+  lock s' <> Some i /\
+  (file s' = file s \/ file s = CPartial i /\ file s' = CDamaged e) /\
+  file s' <> CPartial i.
+Proof. intros g w s i e s' Hq Hd Hr. apply crash_prefix_gen. exact (reachable_linv g w s Hq Hd Hr). Qed.
+
+Lemma progress_reach : forall g w s, quick_ok g = true -> data_ok g = true -> reachable g w s ->
+  (forall i, final (procs s i) = false ->
+     can_move g w s i \/ exists j, j <> i /\ lock s = Some j /\ can_move g w s j) /\
+  (forall i a s', step g w s i a = Some s' ->
+     (measure w (procs s' i) < measure w (procs s i))%nat /\ forall j, j <> i -> procs s' j = procs s j).
+Proof.
+  intros g w s Hq Hd Hr. split.
+  - intros i Hf. apply progress_gen; [exact (reachable_linv g w s Hq Hd Hr)|assumption].
+  - intros i a s'. apply step_measure.
+Qed.
+
+Lemma excludes_reach : forall g w s, quick_ok g = true -> data_ok g = true -> reachable g w s -> excludes s.
+Proof. intros g w s Hq Hd Hr. apply linv_excludes. exact (reachable_linv g w s Hq Hd Hr). Qed.
+(* ---- corollaries in the shape used by Props/C18 *)
+Lemma damaged_replaced_gen : forall g cur src x c, quick_ok g = true -> data_ok g = true ->
+  (exists e, c = CDamaged e /\ In e exception_classes) \/ c = CWrongType \/ c = CHollow ->
+  snd (quick_start g cur c) = CQuick cur DB_FULL /\
+  exists m, snd (data_start g cur src x c) = CData cur m /\ (forall k v, In (k, v) m -> v = src k).
+Proof.
+  intros g cur src x c Hq Hd Hc.
+  assert (Ha : quick_admissible cur c /\ data_admissible cur src c).
+  { destruct Hc as [(e & -> & He)|[->| ->]]; simpl; auto. }
+  destruct Ha as [Ha1 Ha2]. split.
+  - rewrite (quick_start_total g cur c Hq Ha1). reflexivity.
+  - destruct (data_start_total g cur src x c Hd Ha2) as (_ & m & E & Hm & _). exists m. split; assumption.
+Qed.
+
+Lemma stale_gen : forall g cur src x h p m, quick_ok g = true -> data_ok g = true -> h <> cur ->
+  quick_start g cur (CQuick h p) = (Started DB_FULL, CQuick cur DB_FULL) /\
+  fst (data_start g cur src x (CData h m)) = Started (src x) /\
+  exists m', snd (data_start g cur src x (CData h m)) = CData cur m' /\ (forall k v, In (k, v) m' -> v = src k).
+Proof.
+  intros g cur src x h p m Hq Hd Hne. split.
+  - apply quick_start_total; [assumption|]. simpl. intros E. contradiction.
+  - assert (Ha : data_admissible cur src (CData h m)) by (simpl; intros E; contradiction).
+    destruct (data_start_total g cur src x _ Hd Ha) as (E1 & m' & E2 & Hm & _). split; [assumption|].
+    exists m'. split; assumption.
+Qed.
+
+Lemma concurrent_data_answers : forall g w c sched, data_ok g = true -> data_admissible (w_cur w) (w_src w) c -> not_open c ->
+  sched_ok sched ->
+  let s := run g w (init_sys c DStart) sched in
+  (forall i a, procs s i = Done a -> a = w_src w (w_key w i)) /\ data_admissible (w_cur w) (w_src w) (file s).
+Proof.
+  intros g w c sched Hok Ha Hc Hs. destruct (concurrent_data_gen g w c sched Hok Ha Hc Hs) as (H1 & H2 & _). split; assumption.
+Qed.
+
+Lemma concurrent_data_fail : forall g w c sched, data_ok g = true -> data_admissible (w_cur w) (w_src w) c -> not_open c ->
+  sched_ok sched ->
+  forall i st e, procs (run g w (init_sys c DStart) sched) i = Fail st e ->
+  st = S_HANDLER_RM /\ e = EXN_FileNotFoundError /\ guarded (i_hrm_guard g) EXN_FileNotFoundError = false.
+Proof.
+  intros g w c sched Hok Ha Hc Hs. destruct (concurrent_data_gen g w c sched Hok Ha Hc Hs) as (_ & _ & H3). exact H3.
+Qed.
+
+(* ---- a writer that finds a damaged file under the lock rewrites it *)
+Lemma make_cache_rewrites_damaged : forall g w s i m e t s', quick_ok g = true -> data_ok g = true -> reachable g w s ->
+  procs s i = MHold m -> file s = CDamaged e -> In e exception_classes ->
+  step g w s i (AReadAll t) = Some s' ->
+  procs s' i = MMerged m /\ file s' = file s.
+Proof.
+  intros g w s i m e t s' Hq Hd Hr Hp Hf He Hstep. pose proof (reachable_linv g w s Hq Hd Hr) as L.
+  assert (Hh : holding (procs s i) = true) by (rewrite Hp; reflexivity).
+  assert (Hw : writing (procs s i) = false) by (rewrite Hp; reflexivity).
+  destruct (observe_locked s i t L Hh Hw) as [Eo _].
+  unfold step in Hstep. rewrite Hp in Hstep. rewrite Eo, Hf in Hstep. simpl in Hstep. unfold make_inner in Hstep.
+  dfacts Hd. unfold inner_catches_all in Hmin. apply (proj1 (forallb_forall _ _)) with (x := e) in Hmin; [|exact He].
+  destruct (catch_level (m_read_guard g) e) as [[|?]|]; try discriminate. rewrite Hlen in Hstep.
+  inversion Hstep; subst s'. split; [apply set_pc_self|reflexivity].
 Qed.
